@@ -19,7 +19,10 @@ CONCURRENT = {
     "new-child": "1;1;0;0;6;second",
     "new-value-type": "1;0;1;0;17;12",
     "changed-value": "1;0;1;0;2;1",
+    # two changes from two threads (reader thread and controller thread, or two reads): each can hit one pass of a save
+    "two-new-nodes": ["3;255;0;0;17;2.2", "4;255;0;0;17;2.2"],
 }
+BOUND_OVERRIDE = {"two-new-nodes": 2}
 
 
 def _dir():
@@ -62,7 +65,8 @@ def run_one(fmt, what, prefix):
         gw.logic(line)
     before = project_tree(gw.sensors)
     obs = {"saved": saved, "before": before}
-    sched = S.Scheduler(prefix, trace_files=TRACE, horizon=6000)
+    # the two-producer combination is explored with 2 preemptions: points at persistence.py lines and file operations only
+    sched = S.Scheduler(prefix, trace_files=TRACE[:1] if what in BOUND_OVERRIDE else TRACE, horizon=6000)
     fs = FaultFS("record")
     fs.on_point = lambda op: sched.point(("file", op[0]))
 
@@ -77,16 +81,19 @@ def run_one(fmt, what, prefix):
             finally:
                 fs.uninstall()
 
-        def producer():
-            try:
-                gw.logic(CONCURRENT[what])
-                obs["logic_raised"] = None
-            except Exception as exc:  # pylint: disable=broad-except
-                obs["logic_raised"] = exc
+        def producer(line):
+            def run():
+                try:
+                    gw.logic(line)
+                    obs.setdefault("logic_raised", None)
+                except Exception as exc:  # pylint: disable=broad-except
+                    obs["logic_raised"] = exc
+            return run
 
+        lines = CONCURRENT[what] if isinstance(CONCURRENT[what], list) else [CONCURRENT[what]]
         t1 = sched.spawn(saver, "saver")
-        t2 = sched.spawn(producer, "producer")
-        sched.block(lambda: not t1.alive and not t2.alive, ("join-all",))
+        others = [sched.spawn(producer(line), f"producer{i}") for i, line in enumerate(lines)]
+        sched.block(lambda: not t1.alive and all(not t.alive for t in others), ("join-all",))
 
     sched.run(body)
     obs["after"] = project_tree(gw.sensors)
@@ -112,6 +119,23 @@ def judge(fmt, what, sched, obs):
     if err is not None:
         out.append(("file-not-loadable", type(err).__name__, f"after the concurrent save the file does not load: {type(err).__name__}: {short(str(err))}"))
         return out, info
+    # whatever happened, a main file that exists must be a complete document (the loader's fallback to the backup is for
+    # crashes, not for a save that ran to its end with a half-written file)
+    main = os.path.join(obs["dir"], f"p.{fmt}")
+    if os.path.exists(main):
+        try:
+            with open(main, "rb") as fh:
+                if fmt == "json":
+                    import json
+
+                    json.loads(fh.read().decode("utf-8"))
+                else:
+                    import pickle
+
+                    pickle.load(fh)
+        except Exception as exc:  # pylint: disable=broad-except
+            out.append(("main-file-corrupt", type(exc).__name__, f"after the concurrent save the main file is not a complete document ({type(exc).__name__}: {short(str(exc))}); need_save={obs['need_save']}"))
+            return out, info
     failed = obs.get("save_raised") is not None or (loaded == obs["saved"] and obs["need_save"])
     if obs.get("save_raised") is not None:
         info["save_exception_escaped_schedule"] += 1
@@ -178,11 +202,11 @@ def _explore_part(args):
 def run_part(report, tier):
     bound = 1 if tier == "quick" else 2
     deadline = time.time() + (90 if tier == "quick" else 1500)
-    combos = [(fmt, what) for fmt in ("json", "pickle") for what in CONCURRENT]
+    combos = [(fmt, what) for fmt in ("json", "pickle") for what in CONCURRENT if not (tier == "quick" and what in BOUND_OVERRIDE and fmt != "json")]
     ctx = multiprocessing.get_context("fork")
     agg = {c: {"executions": 0, "points": 0, "distinct": 0, "info": collections.Counter(), "complete": True, "outcomes": 0} for c in combos}
     with ctx.Pool(NPROC) as pool:
-        seeds = [(fmt, what, bound, None, deadline, 25) for fmt, what in combos]
+        seeds = [(fmt, what, max(bound, BOUND_OVERRIDE.get(what, 0)), None, deadline, 25) for fmt, what in combos]
         parts = []
         for fmt, what, complete, leftover, execs, points, distinct, found, info, nout in pool.imap(_explore_part, seeds):
             a = agg[(fmt, what)]
@@ -194,7 +218,7 @@ def run_part(report, tier):
             a["complete"] = a["complete"] and complete
             _add(report, fmt, what, found)
             chunks = [leftover[i::8] for i in range(8)]
-            parts += [(fmt, what, bound, ch, deadline, None) for ch in chunks if ch]
+            parts += [(fmt, what, max(bound, BOUND_OVERRIDE.get(what, 0)), ch, deadline, None) for ch in chunks if ch]
         for fmt, what, complete, leftover, execs, points, distinct, found, info, nout in pool.imap_unordered(_explore_part, parts):
             a = agg[(fmt, what)]
             a["executions"] += execs
@@ -226,7 +250,7 @@ def run_part(report, tier):
         "complete": all(a["complete"] for a in agg.values()),
         "informational": dict(total),
         "per_combo": {f"{f}/{w}": {"schedules": a["executions"], "complete": a["complete"], "distinct_points": a["distinct"], **{k: v for k, v in a["info"].items()}} for (f, w), a in agg.items()},
-        "rule": "saver thread runs the real scheduled save (fake Timer) while a producer thread runs Gateway.logic(line) that adds a node / a child / a value type / changes a value; scheduling points: every line of persistence.py and sensor.py, every intercepted file operation; every schedule with at most the stated number of preemptions",
+        "rule": "saver thread runs the real scheduled save (fake Timer) while a producer thread runs Gateway.logic(line) that adds a node / a child / a value type / changes a value (one combination with two producer threads adding a node each, explored with 2 preemptions); scheduling points: every line of persistence.py and sensor.py, every intercepted file operation; every schedule with at most the stated number of preemptions",
     }
 
 
